@@ -3,6 +3,7 @@
 package main
 
 import (
+	"sync/atomic"
 	"bytes"
 	"context"
 	"encoding/binary"
@@ -118,6 +119,9 @@ func short(s string) string {
 
 type migPlan struct {
 	CancelAt int  // cancel the context right after this batch write (-1 = none); the run returns its resume state
+	// CancelAtRead: cancel the context at the k-th state-update read of the migration (0 = none): an interruption in
+	// the MIDDLE of the stager / restorer range, where the resume token points inside the keeper window
+	CancelAtRead int
 	CrashAll bool // crash image after EVERY batch write: each image is restarted (fresh Migrator, no state) and finished
 }
 
@@ -130,10 +134,22 @@ type migResult struct {
 // runMigration runs Migrate to completion on d (resuming after each cancellation with the state the
 // previous run returned, the way the migration runner does). after is called after every batch write.
 func runMigration(d *memory.Database, retained uint64, minAge time.Duration, cancelAt int,
-	after func(seq int, run int),
+	after func(seq int, run int), cancelAtRead ...int,
 ) (res migResult) {
 	var state []byte
 	hdb := newHookDB(d)
+	var cancelNow atomic.Pointer[context.CancelFunc]
+	if len(cancelAtRead) > 0 && cancelAtRead[0] > 0 {
+		k := int64(cancelAtRead[0])
+		cb := func(n int64) {
+			if n == k {
+				if c := cancelNow.Load(); c != nil {
+					(*c)()
+				}
+			}
+		}
+		hdb.onSURead.Store(&cb)
+	}
 	seq := 0
 	var mu sync.Mutex
 	for run := 0; run < 40; run++ {
@@ -144,6 +160,7 @@ func runMigration(d *memory.Database, retained uint64, minAge time.Duration, can
 			return res
 		}
 		ctx, cancel := context.WithCancel(context.Background())
+		cancelNow.Store(&cancel)
 		hdb.arm(nil, func(wi writeInfo) {
 			mu.Lock()
 			k := seq
@@ -184,7 +201,7 @@ func (w *world) migrate(retained uint64, plan migPlan) migResult {
 	if w.broken || w.node == nil {
 		return migResult{Outcome: "err:world stopped"}
 	}
-	w.rec("migrate", retained, fmt.Sprintf("cancel=%d crash-all=%v", plan.CancelAt, plan.CrashAll))
+	w.rec("migrate", retained, fmt.Sprintf("cancel=%d cancel-at-read=%d crash-all=%v", plan.CancelAt, plan.CancelAtRead, plan.CrashAll))
 	w.res.Hit("op:migrate")
 	w.bumpSpecFloor()
 	if w.proc != nil {
@@ -217,7 +234,7 @@ func (w *world) migrate(retained uint64, plan migPlan) migResult {
 			forks = append(forks, img)
 			fmu.Unlock()
 		}
-	})
+	}, plan.CancelAtRead)
 	if w.cutoff > 0 && mf != w.migMinAgeFloor() {
 		w.broken = true
 		clockSkipped.Add(1)
@@ -226,6 +243,9 @@ func (w *world) migrate(retained uint64, plan migPlan) migResult {
 	}
 	if plan.CancelAt >= 0 && res.Runs > 1 {
 		w.res.Hit("migrate:cancelled-and-resumed")
+	}
+	if plan.CancelAtRead > 0 && res.Runs > 1 {
+		w.res.Hit("migrate:cancelled-inside-a-phase-and-resumed")
 	}
 	// crash images: a kill -9 during the migration; the next start runs the migration again from the
 	// beginning (the runner only persists the resume state a RETURNING Migrate hands it)
@@ -556,12 +576,13 @@ func migrationScenario(e *env, name string, seed uint64, newState bool, mode str
 		cases = []cfg{{2, 13}, {0, 5}}
 	}
 	for _, c := range cases {
+		cancelAtRead := 0
 		run := func(cancelAt int) (writes int) {
 			w := cloneWorld(e, base, prunerCfg{Retained: c.retained, L2PerPrune: 1, BatchBytes: 1}, 0, name,
-				map[string]any{"mode": mode, "retained": c.retained, "l1": c.l1, "cancel_at": cancelAt})
+				map[string]any{"mode": mode, "retained": c.retained, "l1": c.l1, "cancel_at": cancelAt, "cancel_at_read": cancelAtRead})
 			defer w.close()
 			w.writeL1(c.l1)
-			plan := migPlan{CancelAt: cancelAt, CrashAll: mode == "crash"}
+			plan := migPlan{CancelAt: cancelAt, CancelAtRead: cancelAtRead, CrashAll: mode == "crash"}
 			r := w.migrate(c.retained, plan)
 			w.observe()
 			if w.broken || r.Outcome[:2] == "er" {
@@ -593,6 +614,15 @@ func migrationScenario(e *env, name string, seed uint64, newState bool, mode str
 			// first ones, around both phase changes and after the last ones
 			for _, j := range spread(n, 9) {
 				run(j)
+			}
+			// and INSIDE the stager / restorer ranges (a keeper window of k blocks: reads 1..k are the stager's,
+			// k+1..2k the restorer's): the resume token then points into the window
+			if c.l1 == 13 || c.l1 == 9 {
+				for _, k := range []int{2, 5, 9, 14, 19, 24} {
+					cancelAtRead = k
+					run(-1)
+				}
+				cancelAtRead = 0
 			}
 		}
 	}
